@@ -6,6 +6,7 @@
   * lemmas behind the property theorems of `Props/C09.lean`.
 -/
 import Gama.Model.Stats
+import Gama.Lemmas.RealScalar
 import Mathlib.Analysis.SpecialFunctions.Complex.Arg
 import Mathlib.Tactic.Linarith
 import Mathlib.Tactic.Ring
@@ -14,14 +15,9 @@ import Mathlib.Tactic.LinearCombination
 
 namespace Gama
 
-noncomputable instance instScalarReal : Scalar ℝ where
-  sqrt := Real.sqrt
-  ofNat := fun n => (n : ℝ)
-  ofSci := fun m s e => OfScientific.ofScientific m s e
-  decLt := fun a b => Classical.dec (a < b)
-  decLe := fun a b => Classical.dec (a ≤ b)
-  beq := fun a b => @decide (a = b) (Classical.dec _)
-  abs := fun x => |x|
+/- `Scalar ℝ` (`Gama.instScalarReal`) is declared once, in `Lemmas/RealScalar.lean`, shared with the
+   C05/C06/C07 and C17/C18 lemma files (its literal `ofSci` is `OfScientific.ofScientific`:
+   `Gama.scalar_ofSci_eq_ofScientific`; the statistics model uses no literal). -/
 
 noncomputable instance instTrigReal : Trig ℝ where
   atan2 := fun y x => Complex.arg ⟨x, y⟩
